@@ -102,6 +102,25 @@ def ones(shape, dtype=None, **kw):
     return _np.ones(shape, dtype=_xl_dtype(dtype) or float, **kw)
 
 
+def eye(n, m=None, k=0, dtype=None, **kw):
+    a = _np.eye(n, m, k, dtype=_xl_dtype(dtype) or float, **kw)
+    if state.object_mode and _is_floaty(dtype):
+        return a.astype(object)          # symbolic entries may be assigned into it afterwards
+    return a
+
+
+def identity(n, dtype=None):
+    return eye(n, dtype=dtype)
+
+
+def full(shape, fill_value, dtype=None, **kw):
+    if state.object_mode and (_is_floaty(dtype) and not isinstance(fill_value, (bool, int)) or _has_sym(fill_value)):
+        a = _np.empty(shape, dtype=object)
+        a.fill(fill_value)
+        return a
+    return _np.full(shape, fill_value, dtype=_xl_dtype(dtype), **kw)
+
+
 def array(obj, dtype=None, **kw):
     if dtype is not None:
         dtype = _xl_dtype(dtype)
@@ -450,7 +469,7 @@ sin = _ew('sin', _np.sin, lambda v: _np.sin(v))
 
 class Facade:
     """The object bound to `np` in the shadow modules."""
-    _over = dict(zeros=zeros, ones=ones, array=array, sqrt=sqrt, log=log_dispatch, exp=exp,
+    _over = dict(zeros=zeros, ones=ones, eye=eye, identity=identity, full=full, array=array, sqrt=sqrt, log=log_dispatch, exp=exp,
                  cos=cos, sin=sin, abs=_abs, absolute=_abs, angle=angle, conj=conj,
                  conjugate=conj, sign=sign, isscalar=isscalar, isfinite=isfinite, linalg=linalg,
                  copy=copy, arange=arange, logical_and=logical_and, logical_or=logical_or,
